@@ -306,7 +306,12 @@ def _libenc_obj(k: int):
         cls = rpc.BindAck if ptype == rpc.PacketType.BIND_ACK else rpc.AlterContextResponse
         # (transfer syntax versions are 32-bit values: also minor-version halves, all ones)
         res = [rpc.ContextResult(rpc.ContextResultCode(j % 4), j, uuid.UUID(int=j * 977), (j, 0x10000, 0x00020001, 0xFFFFFFFF, 0xFFFF, 0x80000000)[(j + k // 5) % 6]) for j in range(k % 5)]
-        obj = cls(header=hdr, sec_trailer=trailer, max_xmit_frag=4280 + k, max_recv_frag=4280, assoc_group=k * 31, sec_addr=("9" * (k % 6)) if k % 7 != 3 else ("\\PIPE\\ls\u00e4ss", "\u20ac1", "n\u00e4\u00e4", "\U0001F600")[(k // 7) % 4], results=res)
+        # (fragment sizes a peer may announce: large, the minimum, tiny; secondary addresses: a port, a pipe name, non-ASCII, and long
+        # runs of word characters ending in one that is not)
+        sec = ("9" * (k % 6)) if k % 7 != 3 else ("\\PIPE\\ls\u00e4ss", "\u20ac1", "n\u00e4\u00e4", "\U0001F600")[(k // 7) % 4]
+        if k % 11 == 5:
+            sec = ("4" * (24 + k % 20) + "!", "\\pipe\\" + "a" * 30 + " ", "x" * 40 + "\x01")[(k // 11) % 3]
+        obj = cls(header=hdr, sec_trailer=trailer, max_xmit_frag=(4280 + k, 1024, 64, 0, 0xFFFF)[(k // 5) % 5], max_recv_frag=(4280, 16, 0xFFFF)[(k // 25) % 3], assoc_group=k * 31, sec_addr=sec, results=res)
     elif ptype == rpc.PacketType.RESPONSE:
         stub = bytes(rng.randrange(256) for _ in range((k * 4) % 64))
         # (alloc_hint is advisory: 0 = "not specified", smaller or larger than the stub are all legal field values)
@@ -346,12 +351,18 @@ def _run_libenc_rest(case, fl, k, obj, hdr, drep, ptype, raw, world, ctxs) -> di
             return await c.bind(ctxs)
 
     with world.installed():
-        with common.LineBudget(LINE_A + LINE_B * len(raw)):
+        with common.CpuBudget(5.0), common.LineBudget(LINE_A + LINE_B * len(raw)):  # (CPU: work outside the interpreter - regular expressions - has no line events)
             out = drive.classify(sync_work) if fl == "sync" else drive.classify(lambda: drive.run_async(world, async_work))
     viol = None
     label = f"{ptype.name} drep=({int(drep.byte_order)},{int(drep.character)},{int(drep.floating_point)}) minor={hdr.version_minor}"
     try:
-        back = PDU.unpack(raw)
+        try:
+            with common.CpuBudget(5.0):
+                back = PDU.unpack(raw)
+        except common.BudgetExceeded as e_:
+            return {"viol": common.violation("C12", "termination", fl, "budget", common.innermost_repo_frame(e_), "library-encoded",
+                                             f"decoding a library-encoded {label} of {len(raw)} bytes used more than 5 s of CPU time"),
+                    "digest": "cpu-budget", "key": common.key_hash(case), "fired": {"libenc": 1}, "probes": {"libenc": 1}, "vtime_ns": 0}
         again = bytearray(back.pack())
         again[8:10] = len(again).to_bytes(2, "little")
         if bytes(again) != raw:
@@ -387,7 +398,7 @@ def _codec_job(job):
         obj = PDU.unpack(raw)
         return repr(obj), bytes(obj.pack())
     if what == "lib":  # library object -> encode -> decode -> encode
-        obj = _libenc_obj(k)[0]
+        obj = _libenc_obj(k + 1 if k % 11 == 5 else k)[0]  # (the long secondary addresses are for the sequential cases, which run under a CPU budget)
         rawb = bytearray(obj.pack())
         rawb[8:10] = len(rawb).to_bytes(2, "little")  # (frag_len is the sender's job, as in the libenc cases)
         raw = bytes(rawb)
